@@ -2,7 +2,7 @@
    The strings wrapped around the text come from Gen/Tables.v, i.e. from what
    one_arg_xforms / two_arg_xforms of the current tree actually return. *)
 From Curtsies Require Import Model.Base Gen.Tables.
-Open Scope N_scope.
+Local Open Scope N_scope.
 
 (* for k, v in sorted(atts.items()): keys sort as
    bg, blink, bold, dark, fg, invert, italic, underline;
